@@ -7,7 +7,8 @@ import numpy as np
 
 def _arr(f):
     v = f.val
-    return np.asarray(v.asnumpy() if hasattr(v, "asnumpy") else v, dtype=np.float64).ravel()
+    v = np.asarray(v.asnumpy() if hasattr(v, "asnumpy") else v)
+    return (v if np.iscomplexobj(v) else v.astype(np.float64)).ravel()
 
 
 def gen(rng, n):
@@ -15,10 +16,10 @@ def gen(rng, n):
     dy = lambda lo, hi: rng.randint(int(lo * 8), int(hi * 8)) / 8
     for _ in range(n):
         m = rng.choice([1, 2, 3])
-        kind = rng.choice(["varcov", "varcov", "hamiltonian", "hamiltonian_varcov"])
+        kind = rng.choice(["varcov", "varcov", "hamiltonian", "hamiltonian_varcov", "varcov_c", "counting"])
         out.append(dict(aux=kind, n=m, r=[dy(-2, 2) for _ in range(m)], i=[dy(0.25, 3) for _ in range(m)],
                         d=[dy(-2, 2) for _ in range(m)], S=rng.choice([["a"], ["b"]]), wm=rng.random() < 0.7,
-                        f=rng.choice(["exp", "tanh", "sin"])))
+                        f=rng.choice(["exp", "tanh", "sin"]), r_im=[dy(-2, 2) for _ in range(m)]))
     return out
 
 
@@ -70,6 +71,15 @@ def _oracle(case, ift):
     x = ift.MultiField.from_dict({"a": ift.makeField(d, np.array(case["r"])), "b": ift.makeField(d, np.array(case["i"]))})
     if kind == "varcov":
         E = ift.VariableCovarianceGaussianEnergy(d, "a", "b", np.float64)
+    elif kind == "varcov_c":
+        # complex residual: the log-determinant constant is NOT halved
+        x = ift.MultiField.from_dict({"a": ift.makeField(d, np.array(case["r"]) + 1j * np.array(case["r_im"])),
+                                      "b": ift.makeField(d, np.array(case["i"]))})
+        E = ift.VariableCovarianceGaussianEnergy(d, "a", "b", np.complex128)
+    elif kind == "counting":
+        # CountingOperator has its own rule (self @ InsertionOperator)
+        cnt = ift.CountingOperator(ift.MultiDomain.make({"a": d, "b": d}))
+        E = ift.GaussianEnergy(data=ift.makeField(d, np.array(case["d"]))) @ (fa("a").ptw(case["f"]) * fa("b")) @ cnt
     elif kind == "hamiltonian":
         lh = ift.GaussianEnergy(data=ift.makeField(d, np.array(case["d"]))) @ (fa("a").ptw(case["f"]) * fa("b"))
         E = ift.StandardHamiltonian(lh)
